@@ -274,7 +274,9 @@ func c02Run(c *core.Ctx, scn c02Scn) {
 		c.Cell("unit:" + h.Units[i].Kind.String())
 	}
 	c.Case(core.HashAdd(core.StrID(scn.Mode), []byte(fmt.Sprint(unitNames(h), scn.Index*boolInt(scn.Mode == "casing")))), delivering >= 1)
-	wit := func() map[string]interface{} { return witnessOf(scn, h, s, map[string]interface{}{"stream_err": errStr(res.Err)}) }
+	wit := func() map[string]interface{} {
+		return witnessOf(scn, h, s, map[string]interface{}{"stream_err": errStr(res.Err)})
+	}
 	if res.Verdict != run.Returned {
 		c.Cell("stream-not-returned(reported under C05)")
 		return
